@@ -131,4 +131,12 @@ def EventPack.w : L := Gen.Packs.EventPack.w attrTable
 def EventPack.r : L := Gen.Packs.EventPack.r (fun r => r)
 def EventPack.l : L := EventPack.w
 
+/-! ### LogSinkPack's content codec (`GetContentBytes` / `SetContentBytes`): a write/read pair of its own -/
+
+/-- `GetContentBytes`: version byte 1, the content text, the line number -/
+def LogSinkContent.w : L := .lit .u8 1 (.fld "Content" .blob .any (.fld "Line" .dec .i64 .nil))
+/-- `SetContentBytes`: assigns Content and Line when the version byte is 1 (any other version: nothing) -/
+def LogSinkContent.r : L :=
+  .var "ver" .u8 (.ite ⟨.eq, "ver", 1⟩ (.fld "Content" .blob .any (.fld "Line" .dec .i64 .nil)) .nil .nil)
+
 end Packs.Hand
